@@ -613,6 +613,33 @@ func (r *keyRun) storeLevel(t *testing.T) {
 		}
 		os.WriteFile(name, r.file, 0o600)
 	}
+	// Update in place on a file another tool wrote (indented JSON, other forms:
+	// a different length than the store's own output)
+	if want("update") && len(r.vs) == 0 {
+		var pretty bytes.Buffer
+		if json.Indent(&pretty, r.file, "", "    ") == nil {
+			os.WriteFile(name, pretty.Bytes(), 0o600)
+		}
+		ks.Lock(acc.Address)
+		if !r.signCheck(ks, acc, p.Pass, "unlock of the re-indented key file", 0) {
+			r.add("round-trip-fails/"+p.Form, 0, "the key file re-indented (same JSON document) no longer unlocks")
+			return
+		}
+		ks.Lock(acc.Address)
+		if err := ks.Update(acc, p.Pass, p.Pass+"u"); err != nil {
+			r.add("update-fails/"+p.Form, 0, "Update with the right passphrase: %v", err)
+			return
+		}
+		if err := ks.Unlock(acc, p.Pass); err == nil && !hmacEquivalent(p.Pass, p.Pass+"u") {
+			r.add("other-passphrase-unlocks", 0, "after Update the old passphrase still unlocks")
+		}
+		ks.Lock(acc.Address)
+		if !r.signCheck(ks, acc, p.Pass+"u", "after Update in place", 0) {
+			stored, _ := os.ReadFile(name)
+			r.add("key-lost-by-update/"+p.Form, 0, "Update reported success but the stored file no longer unlocks with the new passphrase (file now %d bytes, valid JSON: %v)", len(stored), json.Valid(stored))
+		}
+		r.col.Inc("update_in_place_ok")
+	}
 }
 
 func ShrinkKeyPlan(pa any) []any {
